@@ -521,6 +521,14 @@ class SArr(real_np.ndarray):
             root_info(r, ld=self.dtype)
         return r
 
+    def resize(self, new_shape, refcheck=True):
+        """In-place shrink of the leading axis (ndarray.resize on an owning array).  The object
+        buffer behind an SArr is a view, which numpy refuses to resize; shrinking is modelled as a
+        no-op (callers keep using slices of the original buffer), growing is not modelled."""
+        new_shape = tuple(new_shape) if not isinstance(new_shape, int) else (new_shape,)
+        if len(new_shape) != self.ndim or any(a > b for a, b in zip(new_shape, self.shape)):
+            raise ModelGap('ndarray.resize that grows an array')
+
     def _iop(self, o, f):
         if isinstance(o, (Sym, Cplx)):
             self[...] = f(self, o)
